@@ -221,3 +221,106 @@ Theorem C20_exit_zero_iff_done :
   forall (debug : bool) (o : outcome), cli_report debug o = CExit 0 <-> o = Done.
 Proof. exact cli_report_zero. Qed.
 Print Assumptions C20_exit_zero_iff_done.
+
+(** ------------------------------------------------------------------------
+    The end-to-end clause on JSON documents, with the C01 premise discharged by
+    Delta/DeltaRoundtrip.v (theorem C01_roundtrip_oracles_partial).
+
+    JSON documents = values built from dicts with str keys, lists, str, int,
+    half-integer floats, bool, None ([is_json]).  What remains of the C01 guards:
+    well-formedness (automatic after JSON parsing), alias-freeness (no two atoms that
+    are == but not identical: 1 / 1.0 / true), and no "__"-prefixed keys when
+    ignore_private_variables is on (the CLI default).  The tuple guards are vacuous
+    and the type-change guard is PROVED from alias-freeness, given the assumption
+    [conv_json_ok] on Python's constructor calls list(x) / dict(x) on JSON values
+    (result is a well-formed JSON value whose atoms are atoms of x or strings).
+    Remaining premises: the oracle validity conditions of C01 (injective member
+    hash, typed constructor results, valid difflib opcodes, admissible visiting
+    orders), the pickle round trip (= property C14, kept as a premise: C14's
+    payload type is not yet connected to DeltaModel.delta) and the JSON text
+    round trip.  Result: Delta logs no error and A loads as a document equal to
+    B's with identical types, up to object key order ([veqb]). *)
+From DD Require Import Cli.JsonDocs.
+
+Theorem C20_patch_reproduces_json_docs :
+  forall (X : Type) (parse : FsModel.content X -> option Value.value)
+         (dump : Value.value -> option (FsModel.content X))
+         (pickle : DeltaModel.delta -> FsModel.content X)
+         (unpickle : FsModel.content X -> option DeltaModel.delta)
+         (hatom : Value.atom -> PyStr.pystr)
+         (udiff : PyStr.pystr -> PyStr.pystr -> PyStr.pystr)
+         (ops : Value.path -> list Value.value -> list Value.value -> list Tree.opcode)
+         (c : DiffModel.cfg)
+         (conv : Value.ty -> Value.value -> option Value.value)
+         (ro : list (Value.path * Value.value) -> list (Value.path * Value.value))
+         (ao : list (Value.path * option Value.value) -> list (Value.path * option Value.value)),
+    (forall a b : Value.atom, hatom a = hatom b -> a = b) ->
+    (forall (ty0 : Value.ty) (v v' : Value.value), conv ty0 v = Some v' -> Value.type_of v' = ty0) ->
+    conv_json_ok conv ->
+    (forall (p : Value.path) (xs ys : list Value.value),
+        List.forallb DiffModel.is_atom xs = true ->
+        List.forallb DiffModel.is_atom ys = true ->
+        DeltaGuard.valid_ops xs ys (ops p xs ys)) ->
+    DeltaRun.ro_ok ro ->
+    DeltaRun.ao_ok ao ->
+    (forall d : DeltaModel.delta, unpickle (pickle d) = Some d) ->
+    (forall (d : Value.value) (cc : FsModel.content X), dump d = Some cc -> parse cc = Some d) ->
+    forall (pos : FsModel.dumps_pos) (keep : bool) (A B P : FsModel.path) (f : FsModel.fs X)
+           (ca : FsModel.content X) (a b : Value.value) (pd : FsModel.content X),
+      f A = Some ca ->
+      parse ca = Some a ->
+      FsModel.load parse f B = Some b ->
+      P <> A ->
+      P <> FsModel.bak A ->
+      is_json a = true ->
+      is_json b = true ->
+      Value.wf a = true ->
+      Value.wf b = true ->
+      DeltaGuard.alias_free (DeltaGuard.atoms_of a ++ DeltaGuard.atoms_of b) ->
+      DiffModel.ignore_private c = false \/ DeltaGuard.nopriv a = true /\ DeltaGuard.nopriv b = true ->
+      FsModel.diff_cmd parse pickle (mk_delta_json hatom udiff ops c conv) A B f = Some pd ->
+      exists b' : Value.value,
+        DeltaModel.apply conv ro ao (mk_delta_json hatom udiff ops c conv a b) a = (b', 0) /\
+        DeltaGuard.veqb b' b = true /\
+        (forall cr : FsModel.content X,
+            dump b' = Some cr ->
+            exists f' : FsModel.fs X,
+              FsModel.patch_cmd parse dump unpickle (apply_delta_json conv ro ao) pos keep A P
+                                FsModel.no_fault (FsModel.upd P (Some pd) f) = (f', FsModel.Done) /\
+              FsModel.load parse f' A = Some b' /\
+              f' A = Some cr /\
+              f' (FsModel.bak A) = (if keep then Some ca else None) /\
+              (forall q : FsModel.path, q <> A -> q <> FsModel.bak A -> q <> P -> f' q = f q)).
+Proof. exact patch_reproduces_json. Qed.
+Print Assumptions C20_patch_reproduces_json_docs.
+
+(** the reduced guards, in decidable form, imply the guards of the C01 theorem *)
+Theorem C20_json_guards_suffice :
+  forall (c : DiffModel.cfg) (conv : Value.ty -> Value.value -> option Value.value),
+    (forall (ty0 : Value.ty) (v v' : Value.value), conv ty0 v = Some v' -> Value.type_of v' = ty0) ->
+    conv_json_ok conv ->
+    forall t1 t2 : Value.value,
+      json_guardsb c t1 t2 = true -> DeltaGood.guards c conv false false t1 t2.
+Proof. exact json_guardsb_sound. Qed.
+Print Assumptions C20_json_guards_suffice.
+
+(** non-vacuity: a nested pair with a list edit, a list -> object and an int -> str
+    type change satisfies the reduced guards (and is outside the decidable
+    sufficient condition [guardsb] of the C01 block, which rejects container type
+    changes unless values are always included) *)
+Example C20_json_guards_satisfiable :
+  json_guardsb DeltaExamples.ex_cfg jx_t1 jx_t2 = true /\ DeltaGuard.veqb jx_t1 jx_t2 = false /\
+  DeltaChain.guardsb DeltaExamples.ex_cfg false false jx_t1 jx_t2 = false.
+Proof. exact json_guards_satisfiable. Qed.
+Print Assumptions C20_json_guards_satisfiable.
+
+(** alias-freeness cannot be dropped for JSON documents: [1] -> [1.0] leaves [1]
+    (Python-equal to B, not the same JSON value); replayed on the real CLI at every run *)
+Theorem C20_json_alias_refuted :
+  is_json ja_t1 = true /\ is_json ja_t2 = true /\ Value.wf ja_t1 = true /\ Value.wf ja_t2 = true /\
+  DeltaGuard.nopriv ja_t1 = true /\ DeltaGuard.nopriv ja_t2 = true /\
+  DeltaChain.alias_freeb (DeltaGuard.atoms_of ja_t1 ++ DeltaGuard.atoms_of ja_t2) = false /\
+  DeltaExamples.rt DeltaExamples.hatom_ex ja_ops DeltaExamples.ex_cfg DeltaExamples.conv_none false false ja_t1 ja_t2 = (ja_t1, 0) /\
+  DeltaGuard.veqb ja_t1 ja_t2 = false /\ Value.py_eqv ja_t1 ja_t2 = true.
+Proof. exact json_alias_refuted. Qed.
+Print Assumptions C20_json_alias_refuted.
